@@ -334,13 +334,22 @@ def filter_unique_points(points):
     unique_points : array, shape (n_unique_points, 2)
         Unique points.
     """
-    epsilon = 10.0 * EPSILON
+    # rounding errors of the intersection points grow with the magnitude of
+    # their coordinates
+    epsilon = 1e-9
+    if len(points) > 0:
+        epsilon *= max(1.0, np.max(np.abs(points)))
     unique_points = np.empty((len(points), 2))
     n_unique_points = 0
     for j in range(len(points)):
         if j == 0 or np.linalg.norm(points[j] - points[j - 1]) > epsilon:
             unique_points[n_unique_points] = points[j]
             n_unique_points += 1
+    # the points are ordered around their center: the last one can repeat the
+    # first one
+    if (n_unique_points > 1 and np.linalg.norm(
+            unique_points[n_unique_points - 1] - unique_points[0]) <= epsilon):
+        n_unique_points -= 1
     return unique_points[:n_unique_points]
 
 
